@@ -4,3 +4,6 @@ import OsacaVerif.Model.RegDep
 import OsacaVerif.Spec.RegUniverse
 import OsacaVerif.Lemmas.Text
 import OsacaVerif.Props.C12
+import OsacaVerif.Model.PyInt
+import OsacaVerif.Model.Marker
+import OsacaVerif.Spec.KernelSelect
